@@ -38,13 +38,16 @@ theorem exec_append (env : Env) (c d : List Step) (vs : List V) :
 /-! ## What the proof needs from `Adder`, `Subtractor`, `Multiplier`, `Divider` -/
 
 theorem binVal_add (a b : V) : binVal .add a b = .ok (PyF.add a b) := by
-  simp [binVal, binAdder, bind, Except.bind, pure, Except.pure]
+  cases a <;> cases b <;>
+    simp [binVal, binAdder, PyF.add, PyF.sub, PyF.mul, PyF.neg, bind, Except.bind, pure, Except.pure] <;> grind
 
 theorem binVal_sub (a b : V) : binVal .sub a b = .ok (PyF.sub a b) := by
-  simp [binVal, binSubtractor, bind, Except.bind, pure, Except.pure]
+  cases a <;> cases b <;>
+    simp [binVal, binSubtractor, PyF.add, PyF.sub, PyF.mul, PyF.neg, bind, Except.bind, pure, Except.pure] <;> grind
 
 theorem binVal_mul (a b : V) : binVal .mul a b = .ok (PyF.mul a b) := by
-  simp [binVal, binMultiplier, bind, Except.bind, pure, Except.pure]
+  cases a <;> cases b <;>
+    simp [binVal, binMultiplier, PyF.add, PyF.sub, PyF.mul, PyF.neg, bind, Except.bind, pure, Except.pure] <;> grind
 
 theorem rat_mul_div (x w y : Rat) : x * w / y = x * (w / y) := by
   rw [Rat.div_def, Rat.div_def, Rat.mul_assoc]
@@ -57,7 +60,12 @@ theorem mul_div_assoc (a b d : V) :
     binVal .div (PyF.mul a b) d = binVal .div b d >>= fun q => .ok (PyF.mul a q) := by
   cases a <;> cases b <;> cases d <;>
     simp [binVal, binDivider, PyF.mul, PyF.div, PyF.eq, PyF.lit, PyF.nan, bind, Except.bind, pure, Except.pure]
-  all_goals (rename_i y; by_cases h : y = 0 <;> simp [h, rat_mul_div])
+  all_goals
+    rename_i y
+    by_cases h : y = 0
+    · subst h; simp
+    · have h' : ¬ (0 : Rat) = y := fun e => h e.symm
+      simp [h, h', rat_mul_div]
 
 /-! ## On finite operands every step is the rational operation -/
 
